@@ -217,7 +217,10 @@ class C17(Property):
         if tier == "quick":
             return {"depth": 4, "full_depth": 2, "deep_tags": ["kern", "mark", "curs"],
                     "deep_shapes": ["plain", "middle", "alone"], "variants_depth": 1}
-        return {"depth": 5, "full_depth": 3, "deep_tags": GPOS_TAGS, "deep_shapes": SHAPES, "variants_depth": 1}
+        # (a full third level over the 63-block palette would be 750k states: the third level is explored
+        #  over the hand-written GPOS blocks only, where blocks interact)
+        return {"depth": 4, "full_depth": 2, "deep_tags": GPOS_TAGS,
+                "deep_shapes": ["plain", "alone", "top", "middle", "commented"], "variants_depth": 2}
 
     def initial(self, b):
         out = []
